@@ -227,6 +227,11 @@ def run(ctx):
         if shallow:
             copied = set()
             for n in walk_no_nested(dc.node):
+                # setattr(new, name, deepcopy(getattr(self, name))) over a tuple of attribute names
+                if isinstance(n, ast.For) and isinstance(n.iter, (ast.Tuple, ast.List)) and any(
+                        isinstance(c, ast.Call) and call_name(c) in ("deepcopy", "copy") for c in ast.walk(n)) and any(
+                        isinstance(c, ast.Call) and call_name(c) == "setattr" for c in ast.walk(n)):
+                    copied |= {e.value for e in n.iter.elts if isinstance(e, ast.Constant) and isinstance(e.value, str)}
                 if isinstance(n, ast.Assign) and isinstance(n.targets[0], ast.Attribute) and isinstance(n.value, ast.Call) \
                         and call_name(n.value) in ("deepcopy", "copy"):
                     copied.add(n.targets[0].attr)
